@@ -232,6 +232,11 @@ def run(ctx):
     ctx.need(counter is not None, "COUNTER")
     r17_1(ctx, R, counter)
     r17_3(ctx, R)
+    import c04
+    ot = c04.ordered_types(ctx)
+    c04.r4_1(ctx, R, ot)
+    ctx.rule("R4.1", "see C04 R4.1 (shared): index discipline of the ordered collections -- an item that is accepted but can never "
+                     "come into turn is counted by the lower bound for ever")
     import c15
     c15.r15_3(ctx, R, counter)
     ctx.rule("R15.3", "see C15 R15.3 (shared link): the len() observers the hints are built from read the counting fields")
